@@ -199,7 +199,7 @@ def run_batch(sess, n_runs, deadline, results, status_counts, groups, harness_er
     from ..check import vkey
 
     seed = sess.seed
-    descs_a = [gen_desc(seed, i, sess.tier) for i in range(n_runs)]
+    descs_a = [gen.deepen(gen_desc(seed, i, sess.tier), sess.tier) for i in range(n_runs)]
     descs_b = [variant_b(d, seed) for d in descs_a]
     res_a: dict[int, dict] = {}
     res_b: dict[int, dict] = {}
